@@ -316,6 +316,14 @@ def run(tier: str, seed: int) -> int:
                        "sampled with VERIF_SEED in the quick tier, each run on spectra of the listed sizes; every run's Progress trace is "
                        "validated against Progress.tla; distinct = distinct (configuration, size) pairs + the behaviours of specs/ProgressApi.tla "
                        "(register / unregister interleaved with the calls of one or two nested Progress objects) replayed through pyimpspec.progress")
+    # coverage extension (never an alarm): the (lower, upper) window of the automatic Kramers-Kronig test, specs/Suggest.tla
+    try:
+        from .suggest_ext import run_extension as _suggest_extension
+        rep, nt, ev = v.replayed, v.nontrivial, v.evaluations
+        _suggest_extension(v, tier)
+        v.nontrivial, v.evaluations = nt, ev          # keep the C18 counts; the extension reports its own
+    except Exception as e:  # noqa: BLE001  (an extension must not break the check of the listed property)
+        v.extra["suggest_extension_error"] = f"{type(e).__name__}: {e}"[:300]
     v.assumptions += ["size floors per entry point are frozen from the pinned tree; smaller spectra are recorded, not judged",
                       "KK / DRT step accounting is not transcribed (their traces are validated against the counter machine only)"]
     return v.finish()
